@@ -41,6 +41,9 @@ def gen(rng, thorough):
                 occ = [now + 100 + i * step for i in range(n)]
                 items.append(TaskSpec(uid, occ, rng.choice([None, 1, 2]), rng.choice([0, 5000])))
                 owned[uid] = peer
+            if items and rng.random() < 0.2:
+                # an accepted change followed by a refused one in the same message (a cancel for a task that does not exist)
+                items.append(("cancel", "ghost%d" % uidn))
             if items:
                 out.append(request(peer, items)[0])
         return out
